@@ -58,7 +58,7 @@ CHECKS = {
         "assumptions": ["R-sem is the specification for object subjects", "the server-level fall-back is enabled as in production"],
     },
     "C04": {
-        "runs": [_r("TestC04", 4000, 50000, qt=1500, tt=5000)],
+        "runs": [_r("TestC04", 4000, 50000, qt=1500, tt=5000), _r("TestC04Links", 4000, 60000, qs=8, qt=900, tt=3000)],
         "rule": "rapid draws a world (generator G), a split of its valid tuples into stored S and contextual X (<= 20), Check requests, a ListObjects "
                 "request, a ListUsers request and an Expand request. Metamorphic oracle: every query on (store=S, contextual=X) answers like the same "
                 "query on (store=S+X, no contextual tuples): Check (default engine behind query+iterator caches, weighted engine), BatchCheck, ListObjects "
